@@ -215,6 +215,11 @@ def encode_segment(seg, index_only=False):
     raw, layout = encode_raw(seg)
     if seg.get('trim_raw'):
         raw = raw[:max(len(raw) - seg['trim_raw'], 0)]
+        if layout['chunks']:
+            # the layout reports what is really there: the last chunk ends where the raw data ends
+            last = dict(layout['chunks'][-1])
+            last['size'] = max(len(raw) - last['start'], 0)
+            layout = dict(layout, chunks=layout['chunks'][:-1] + [last])
     toc = 0
     if has_meta:
         toc |= TOC_META
